@@ -125,7 +125,7 @@ def main(tier, seed):
         assumptions=[
             __import__("pyvc.props.anysize", fromlist=["A_SUM"]).A_SUM,
             "modular: predict_rank is verified with _rank_data replaced by its contract (competition ranks); the real _rank_data/_arg_sort are verified against that contract for n = 1..5 (thorough ..7) on symbolic values, every ordering with ties a path (native sorted on (value, index) pairs)",
-            "A-Phi; equality of probabilities is equality of the reals they denote (whether identical teams get bit-identical floats is a rounding question, A-fp)",
+            "A-Phi [A-Phi is machine-checked against Mathlib in lemmas/Phi.lean for Phi := the standard Gaussian CDF (thorough tier of C17); that libm's erfc/2 is this Phi stays assumed]; equality of probabilities is equality of the reals they denote (whether identical teams get bit-identical floats is a rounding question, A-fp)",
             "shape-bounded (coverage.shapes)",
         ],
         explanation=("The real predict_rank is executed on symbolic teams with _rank_data replaced by its (separately verified) contract: n pairs in input order, pair i carrying team i's probability (exact identity with the closed form), probabilities in [0,1]; the integer-rank clauses (range 1..n, strictly larger probability => strictly better rank, equal => equal, best has rank 1) are proved by z3 for arbitrary probability values from the rank terms the code builds (max / abs reversal included); "
